@@ -25,11 +25,11 @@ fn deserialize_env(s: &str) -> Result<HashMap<String, String>, String> {
 }
 
 fn serialize_env(env: &HashMap<String, String>) -> String {
-    let mut s = String::new();
-    for (key, value) in env {
-        s.push_str(&format!("{}={}\n", key, value));
-    }
-    s
+    // one KEY=value per line, without a trailing newline (it would print as an empty line, which ends the paragraph)
+    env.iter()
+        .map(|(key, value)| format!("{}={}", key, value))
+        .collect::<Vec<_>>()
+        .join("\n")
 }
 
 fn deserialize_version(s: &str) -> Result<debversion::Version, String> {
